@@ -1,7 +1,9 @@
 package props
 
 import (
+	"context"
 	"encoding/json"
+	"errors"
 	"fmt"
 	"math/rand/v2"
 	"sort"
@@ -518,8 +520,67 @@ func relatedOperands(c *h.Ctx) {
 	c.Sample("related", map[string]string{"expr": `$.a >= 1 && $.a <= 3`, "doc": `{"a":[0,5]}`, "expected": "true in lax mode: 5 is at least 1 and 0 is at most 3 - two separate existential comparisons"})
 }
 
+// abortedOperands: a condition whose evaluation is cut short (the context is
+// cancelled by its owner, or its deadline passes, at any step) has no truth
+// value - it is not "unknown". `(p) is unknown`, `!`, `&&`, `||`, `exists` and
+// a filter around it therefore end with the context's error, or - when the
+// evaluation was already past the cut - with the value of the undisturbed run.
+func abortedOperands(c *h.Ctx) {
+	exprs := []string{`($.a[*] == 1) is unknown`, `!(($.a[*] > 5) is unknown)`, `($.a[*].double() > 1) is unknown`, `(exists($.a[*] ? (@ > 1))) is unknown`, `($.s == 1) is unknown || $.a[0] == 1`,
+		`($.a[*] == 1 && $.s == "x") is unknown`, `$ ? ((@.a[*] > 1) is unknown)`, `$.a[*] ? ((@ == "x") is unknown)`, `exists($ ? ((@.s.double() > 1) is unknown))`, `(($.a[*] == 1) is unknown) is unknown`,
+		`!($.a[*] == 9)`, `$.a[*] == 9 || ($.s starts with "x")`, `!exists($.a[*] ? (@ == 9))`}
+	doc := `{"a":[1,2,"x",3],"s":"x"}`
+	idx := 0
+	for _, ex := range exprs {
+		for _, lax := range []bool{true, false} {
+			idx++
+			if !c.Mine(idx) {
+				continue
+			}
+			txt := ex
+			if !lax {
+				txt = "strict " + ex
+			}
+			p, err, pan := h.ParseSafe(txt)
+			if err != nil || pan != "" {
+				c.Count("gen.unparsable", 1)
+				continue
+			}
+			for _, entry := range []string{"query", "match", "exists"} {
+				if entry == "match" && !p.IsPredicate() {
+					continue
+				}
+				for _, silent := range []bool{false, true} {
+					opts := h.Opts{Vars: h.DecodeVars(stdVars, false), Silent: silent}
+					base := h.Call(entry, p, h.Decode(doc, false), opts)
+					c.Eval(1)
+					want := base.Summary()
+					for k := 1; k <= base.Steps; k++ {
+						cause := []error{context.Canceled, context.DeadlineExceeded}[k%2]
+						m := &h.CallMon{CancelAt: k, Cause: cause}
+						o := h.CallMonitored(entry, p, h.Decode(doc, false), opts, m)
+						c.Eval(1)
+						cs := h.Case{Kind: "aborted", Path: txt, Doc: doc, Entry: entry, Silent: silent, Vars: stdVars, Extra: map[string]string{"context-done-at-step": fmt.Sprint(k), "cause": cause.Error()}}
+						switch {
+						case o.Class == h.Panic:
+							c.Skip("aborted", "panic-is-C05")
+						case errors.Is(o.Err, cause):
+							c.Held("aborted")
+						case m.Steps < k && o.Summary() == want:
+							c.Held("aborted") // done before the cut
+						default:
+							c.Violate("aborted", h.F("entry", entry, "mode", modeName(lax), "cause", cause.Error()), fmt.Sprintf("%s(%s): the context was done (%v) from step %d of %d on, yet the call returned %s (undisturbed: %s) - an aborted condition has no truth value", entry, txt, cause, k, base.Steps, o.Summary(), want), cs)
+						}
+					}
+				}
+			}
+		}
+	}
+}
+
 func runC11(c *h.Ctx) {
 	runTables(c)
+	abortedOperands(c)
 	relatedOperands(c)
 	existsStrictness(c)
 	existsSelective(c)
